@@ -268,6 +268,14 @@ pub fn run_case(
             world0.code_lines.insert(*row, (*c0, *c1));
         }
         world0.fs_quota = quota;
+        for ((id, _k), (row, c0, c1)) in &em.header_spans {
+            world0.header_spans.push(crate::world::Span {
+                stmt: *id,
+                row: *row,
+                col_start: *c0,
+                col_end: *c1,
+            });
+        }
         // a crash point: the run is killed when this many instructions have been executed
         world0.kill_at = plan
             .iter()
@@ -615,7 +623,7 @@ fn expr_has_call(e: &Expr) -> bool {
         Expr::Add(a, b) | Expr::Sub(a, b) | Expr::Mul(a, b) | Expr::Cmp(_, a, b) => {
             expr_has_call(a) || expr_has_call(b)
         }
-        Expr::Paren(x) => expr_has_call(x),
+        Expr::Paren(x) | Expr::Quot(x) => expr_has_call(x),
         _ => false,
     }
 }
@@ -632,7 +640,7 @@ fn expr_calls(e: &Expr, out: &mut Vec<String>) {
             expr_calls(a, out);
             expr_calls(b, out);
         }
-        Expr::Paren(x) => expr_calls(x, out),
+        Expr::Paren(x) | Expr::Quot(x) => expr_calls(x, out),
         _ => {}
     }
 }
